@@ -240,12 +240,36 @@ class _BuildingNode(object):
         return self._variable
 
     def handle_token(self, sender, token):
+        # The token is passed along the DFS tree with an explicit stack and not
+        # with recursive calls: the depth of the tree is only bounded by the
+        # number of variables and recursion overflows the interpreter stack on
+        # long chains (a few hundred variables).
+        stack = []
+        todo = self._receive_token(sender, token)
+        if todo is not None:
+            stack.append(todo)
+        while stack:
+            node, token, neighbors = stack[-1]
+            for n in neighbors:
+                if n not in node._visited:
+                    if n not in node.pseudo_parents:
+                        node.children.append(n)
+                    todo = n._receive_token(node, token)
+                    if todo is not None:
+                        stack.append(todo)
+                        break
+            else:
+                stack.pop()
+
+    def _receive_token(self, sender, token):
+        # Returns None if the token stops here, otherwise the tuple
+        # (node, token, iterator on the neighbors the token must be passed to).
         token = token[:]
         self._visited.append(sender)
         if sender is None:
             # root
             self.root = True
-            self._propagate(token)
+            return self._propagate(token)
 
         elif self.parent is None and not self.root:
             self.parent = sender
@@ -255,13 +279,14 @@ class _BuildingNode(object):
             self._neighbors.sort(
                 key=lambda x: x.count_neighbors_in_token(token), reverse=True
             )
-            self._propagate(token)
+            return self._propagate(token)
 
         else:
             if sender in self.children:
                 pass
             else:
                 self.pseudo_children.append(sender)
+            return None
 
     def _propagate(self, token):
         token.append(self)
@@ -272,12 +297,7 @@ class _BuildingNode(object):
         self._neighbors.sort(
             key=lambda x: x.count_neighbors_in_token(token), reverse=True
         )
-
-        for n in self._neighbors:
-            if n not in self._visited:
-                if n not in self.pseudo_parents:
-                    self.children.append(n)
-                n.handle_token(self, token)
+        return self, token, iter(self._neighbors)
 
     def count_neighbors_in_token(self, token):
         """
@@ -370,12 +390,12 @@ def _visit_tree(root):
 
     :param root: the root node of the tree.
     """
-    yield root
-    for c in root.children:
-        # Using 'yield from would be nicer, but is only available with python
-        #  >= 3.3
-        for n in _visit_tree(c):
-            yield n
+    # explicit stack: the tree may be as deep as the number of variables
+    stack = [root]
+    while stack:
+        node = stack.pop()
+        yield node
+        stack.extend(reversed(node.children))
 
 
 def tree_str_desc(root, indent_num=0):
